@@ -396,6 +396,8 @@ pub fn run(ctx: &mut Ctx) {
             T.with(|t| push_oracle(t, c, p))
         },
     );
+    // coverage-guided search over the same strategies and oracles (thorough tier; see ptfuzz.rs)
+    crate::ptfuzz::thorough(ctx, &[("c16", 12, 300_000), ("c16p", 4, 500_000)]);
 }
 
 pub fn replay(ctx: &mut Ctx, sub: &str, case: &Value) {
